@@ -71,13 +71,10 @@ pub fn number_to_string(n: f64) -> String {
         return "0".to_string();
     }
 
-    // `{:e}` yields the shortest digits that round-trip, as "d[.ddd]e<exp>"
-    let sci = format!("{:e}", n.abs());
-    let (mantissa, exp_str) = sci.split_once('e').unwrap_or((sci.as_str(), "0"));
-    let digits: String = mantissa.chars().filter(|c| *c != '.').collect();
+    let (digits, exponent) = shortest_round_trip_digits(n);
     let k = digits.len() as i32;
     // Position of the decimal point relative to the start of the digits
-    let point = exp_str.parse::<i32>().unwrap_or(0) + 1;
+    let point = exponent + 1;
 
     let mut out = String::new();
     if n < 0.0 {
@@ -106,6 +103,43 @@ pub fn number_to_string(n: f64) -> String {
         out.push_str(&exponent.unsigned_abs().to_string());
     }
     out
+}
+
+/// The shortest decimal digits that read back to the magnitude of a finite, non-zero number,
+/// and the decimal exponent of the first digit. Where two digit strings of that length are
+/// equally close to the number, the even one is taken, as Number::toString requires.
+pub fn shortest_round_trip_digits(n: f64) -> (String, i32) {
+    // `{:e}` yields shortest digits that round-trip, as "d[.ddd]e<exp>"
+    let sci = format!("{:e}", n.abs());
+    let (mantissa, exp_str) = sci.split_once('e').unwrap_or((sci.as_str(), "0"));
+    let digits: String = mantissa.chars().filter(|c| *c != '.').collect();
+    let exponent = exp_str.parse::<i32>().unwrap_or(0);
+
+    // `{:e}` may return either neighbour when the number lies exactly half-way between two
+    // digit strings of that length. Both can only read back to the number when the last digit
+    // weighs no more than the spacing of doubles, which takes at least 16 digits with the last
+    // one behind the decimal point.
+    let fraction_digits = digits.len() as i32 - 1 - exponent;
+    if digits.len() >= 16 && (1..=25).contains(&fraction_digits) {
+        // 2 * |n| * 10^fraction_digits = doubled * 5^fraction_digits; doubling is exact
+        let mut doubled = n.abs();
+        for _ in 0..=fraction_digits {
+            doubled *= 2.0;
+        }
+        if doubled < 1e19 && math::fract(doubled) == 0.0 && math::fract(doubled / 2.0) != 0.0 {
+            // An odd integer: |n| is the midpoint of `lower` and `lower + 1` (units of the last digit)
+            let lower = ((doubled as u128) * 5u128.pow(fraction_digits as u32) - 1) / 2;
+            let even = if lower % 2 == 0 { lower } else { lower + 1 };
+            let even_digits = even.to_string();
+            // Next to a power of two the candidate below may fall outside the narrower lower
+            // half of the rounding interval: it must read back too
+            let reads_back = format!("{}e-{}", even_digits, fraction_digits).parse::<f64>();
+            if even_digits.len() == digits.len() && reads_back == Ok(n.abs()) {
+                return (even_digits, exponent);
+            }
+        }
+    }
+    (digits, exponent)
 }
 
 /// ECMAScript ToUint32: truncate toward zero, then wrap modulo 2^32 (NaN and infinities give 0).
